@@ -130,7 +130,12 @@ def rewrite (r : Request) : Except Unit Rewritten :=
     let authority := match pathStart with                -- req.req.substr(0, path_start)
       | none => r.req
       | some ps => r.req.take ps
-    let hostEnd := findLast authority 58                 -- .find_last_of(':')
+    let hostEnd0 := findLast authority 58                -- authority.find_last_of(':')
+    let bracket := findLast authority 93                 -- authority.find_last_of(']')
+    -- the colons of a bracketed IPv6 literal do not separate a port
+    let hostEnd : Option Nat := match bracket, hostEnd0 with
+      | some b, some he => if he < b then none else some he
+      | _, _ => hostEnd0
     let portAt : Option Nat := match hostEnd with        -- host_end != npos && host_end > 7
       | some he => if he > 7 then some he else none
       | none => none
@@ -155,6 +160,7 @@ def rewrite (r : Request) : Except Unit Rewritten :=
 
 structure Px where
   writing : Bool := false     -- m_writing_to_server
+  connecting : Bool := false  -- m_connecting
   cin     : Bytes := []       -- m_client_in_buffer (initialised prefix)
   nCin    : Nat := 0          -- m_num_client_in_bytes
   sout    : Bytes := []       -- m_server_out_buffer
@@ -196,7 +202,7 @@ def destruct (p : Px) : Px × List Act :=
 
 /-- `close_connection()` -/
 def closeConnection (p : Px) : Px × List Act :=
-  let p := { p with nCin := 0, nSout := 0, srvOpen := false }
+  let p := { p with nCin := 0, nSout := 0, connecting := false, srvOpen := false }
   (p, [.closeClient, .closeServer] ++ (if p.close then [] else [.accept]))
 
 /-- `stop()` -/
@@ -245,7 +251,9 @@ def forwardRequest (lit : Bytes → Option Bool) (p : Px) (req : Request) : Exce
       | .error _ => .ok (p, [.ub "m_server_out_buffer"])
       | .ok sout =>
         let p := { p with sout := sout, nSout := p.nSout + rw.out.length }
-        if !p.srvOpen then
+        if p.connecting then .ok (p, [])               -- stays queued; written once connected
+        else if !p.srvOpen then
+          let p := { p with connecting := true }
           match lit rw.host with
           | none => .ok (p, [.resolve rw.host (portStr rw.port)])
           | some v4 => .ok (openForward p rw.host (toU16 rw.port) v4)
@@ -290,7 +298,8 @@ def onReadRequest (lit : Bytes → Option Bool) (p : Px) (ec : Ec) (off : Nat) (
   | .error _ => (p, [.ub "m_client_in_buffer"])
   | .ok cin =>
     let p := { p with cin := cin }
-    if ec ≠ .ok then closeConnection p
+    if ec = .aborted then (p, [])
+    else if ec ≠ .ok then closeConnection p
     else
       let p := { p with nCin := p.nCin + data.length }
       requestLoop lit (p.nCin + 1) p []
@@ -298,13 +307,15 @@ def onReadRequest (lit : Bytes → Option Bool) (p : Px) (ec : Ec) (off : Nat) (
 /-- `on_domain_lookup(ec, ips)`; `v4` = family of the first address -/
 def onDomainLookup (p : Px) (ec : Ec) (ips : List (Bytes × Nat × Bool)) : Px × List Act :=
   match ips with
-  | [] => error p 503 "Resource Temporarily Unavailable"
+  | [] => error { p with connecting := false } 503 "Resource Temporarily Unavailable"
   | (a, port, v4) :: _ =>
-    if ec ≠ .ok then error p 503 "Resource Temporarily Unavailable"
+    if ec ≠ .ok then error { p with connecting := false } 503 "Resource Temporarily Unavailable"
     else openForward p a port v4
 
 /-- `on_connected(ec)` -/
 def onConnected (p : Px) (ec : Ec) : Px × List Act :=
+  if ec = .aborted then (p, []) else
+  let p := { p with connecting := false }
   if ec ≠ .ok then
     let r := error { p with srvOpen := false } 503 "Service Temporarily Unavailable"
     (r.1, .closeServer :: r.2)
@@ -314,6 +325,7 @@ def onConnected (p : Px) (ec : Ec) : Px × List Act :=
 
 /-- `on_server_write(ec, bytes_transferred)` -/
 def onServerWrite (p : Px) (ec : Ec) (n : Nat) : Px × List Act :=
+  if ec = .aborted then (p, []) else
   let p := { p with writing := false }
   if ec ≠ .ok then closeConnection p
   else if n > p.nSout then (p, [.ub "memmove size underflow in on_server_write"])
@@ -333,7 +345,8 @@ def onServerReceive (p : Px) (ec : Ec) (data : Bytes) : Px × List Act :=
   | .error _ => (p, [.ub "m_in_buffer"])
   | .ok inb =>
     let p := { p with inb := inb }
-    if ec ≠ .ok then closeConnection p
+    if ec = .aborted then (p, [])
+    else if ec ≠ .ok then closeConnection p
     else
       match memRead p.inb 0 data.length with
       | .error _ => (p, [.ub "m_in_buffer"])
@@ -341,6 +354,7 @@ def onServerReceive (p : Px) (ec : Ec) (data : Bytes) : Px × List Act :=
 
 /-- `on_server_forward(ec, bytes)` -/
 def onServerForward (p : Px) (ec : Ec) : Px × List Act :=
-  if ec ≠ .ok then closeConnection p else (p, [.readServer])
+  if ec = .aborted then (p, [])
+  else if ec ≠ .ok then closeConnection p else (p, [.readServer])
 
 end SimVerif.HttpProxy
